@@ -191,28 +191,44 @@ pub fn stress_supplement(report: &mut Report, seconds: f64) {
         let Ok(mut sut) = Sut::create(Cfg::memory(), "c14stress") else { return };
         let st = sut.store().clone();
         let keys: Vec<Vec<u8>> = (0..4).map(|i| format!("k{i}").into_bytes()).collect();
+        let panicked: Mutex<Option<String>> = Mutex::new(None);
         std::thread::scope(|sc| {
             for t in 0..3 {
                 let st = st.clone();
                 let keys = keys.clone();
+                let panicked = &panicked;
                 sc.spawn(move || {
-                    for i in 0..4000u32 {
-                        let k = &keys[(i as usize + t) % keys.len()];
-                        match (t + i as usize) % 3 {
-                            0 => {
-                                let _ = st.delete(k);
-                            }
-                            1 => {
-                                let _ = st.insert_if_absent(k, b"v");
-                            }
-                            _ => {
-                                let _ = st.insert(k, b"w");
+                    let r = std::panic::catch_unwind(std::panic::AssertUnwindSafe(|| {
+                        for i in 0..4000u32 {
+                            let k = &keys[(i as usize + t) % keys.len()];
+                            match (t + i as usize) % 3 {
+                                0 => {
+                                    let _ = st.delete(k);
+                                }
+                                1 => {
+                                    let _ = st.insert_if_absent(k, b"v");
+                                }
+                                _ => {
+                                    let _ = st.insert(k, b"w");
+                                }
                             }
                         }
+                    }));
+                    if let Err(p) = r {
+                        *panicked.lock().unwrap() = Some(crate::sut::panic_text(p));
                     }
                 });
             }
         });
+        if let Some(msg) = panicked.into_inner().unwrap() {
+            report.violation(
+                "range|stress-supplement|panic".to_string(),
+                format!("C14: a call panicked under concurrent delete / insert_if_absent / insert on the same keys: {msg} (found by the free-running sampling supplement, round {})", rounds + 1),
+                json!({"engine":"c14-stress","round":rounds + 1}),
+            );
+            std::mem::forget(sut);
+            break;
+        }
         ops += 12_000;
         rounds += 1;
         let d = st.verif_dump();
